@@ -53,6 +53,8 @@ M = [
  ('M21 aggregate_with_tweak aggregates with the UNTWEAKED package',
   '    let public_key_package = public_key_package.clone().tweak(merkle_root);\n    frost::aggregate(signing_package, signature_shares, &public_key_package)',
   '    let _unused = public_key_package.clone().tweak(merkle_root);\n    frost::aggregate(signing_package, signature_shares, public_key_package)'),
+ ('M23 single_sign does not normalise the secret key to even Y',
+  '        let signing_key = signing_key.clone().into_even_y(None);\n        signing_key.default_sign(rng, message)', '        let signing_key = signing_key.clone();\n        signing_key.default_sign(rng, message)'),
  ('M22 tweak ignores the root (same tweak as key-path-only)',
   '            hasher.update(root.as_ref());\n', '            let _ignored = root.as_ref();\n'),
 ]
